@@ -319,8 +319,23 @@ def all_variants():
         k = os.path.basename(p)[:-5]
         out.append({"id": "revert-" + k, "type": "diff", "path": os.path.relpath(p, VERIF), "reverse": True,
                     "fires": FIX_REVERT_FIRES.get(k, []), "silent": [], "note": "re-introduces repaired defect " + k})
+    # behaviour-preserving refactorings written by independent sub-agents: silent for every property whose rules can read them
+    for mp in sorted(glob.glob(os.path.join(VERIF, "seeded", "equiv", "*", "meta.json"))):
+        d = os.path.dirname(mp)
+        try:
+            with open(mp) as f:
+                meta = json.load(f)
+        except (OSError, ValueError):
+            continue
+        if not os.path.exists(os.path.join(d, "patch.diff")) or meta.get("violation_in"):
+            continue
+        unread = set(meta.get("analysis_error_in", []))
+        out.append({"id": "equiv-" + os.path.basename(d), "type": "diff", "path": os.path.relpath(os.path.join(d, "patch.diff"), VERIF),
+                    "reverse": False, "fires": [], "silent": [p for p in ALLP if p not in unread], "note": meta.get("summary", "")})
     for mp in sorted(glob.glob(os.path.join(VERIF, "seeded", "*", "meta.json"))):
         d = os.path.dirname(mp)
+        if os.path.basename(os.path.dirname(d)) == "equiv" or os.path.basename(d) == "equiv":
+            continue
         try:
             with open(mp) as f:
                 meta = json.load(f)
